@@ -217,6 +217,7 @@ type Gen struct {
 	curPos  token.Pos
 	bodyless bool
 	strConsts map[string]Val
+	modEffs []Effect
 	famDeclLine map[string]int
 	curLoop *loopInfo
 	famLeaf map[string]IntInfo
@@ -229,6 +230,15 @@ type Gen struct {
 	specPkg *types.Package
 	specDepth int
 	recSpec *SpecFunc
+}
+
+func (g *Gen) noteAssumption(a string) {
+	for _, x := range g.assumptions {
+		if x == a {
+			return
+		}
+	}
+	g.assumptions = append(g.assumptions, a)
 }
 
 // axioms from contract files are assumed at the start of every query that declares the spec functions they mention
